@@ -313,8 +313,8 @@ func genClose(r rng, seed uint64, id string) *sdl.Program {
 	return p
 }
 
-var cfgLeafInts = []string{"sim.a", "sim.b", "sim.c", "sim.sub.a", "other.n"}
-var cfgLeafStrs = []string{"sim.name", "sim.sub.b", "other.tag"}
+var cfgLeafInts = []string{"sim.a", "sim.b", "sim.c", "sim.sub.a", "other.n", "alt.sub.a"}
+var cfgLeafStrs = []string{"sim.name", "sim.sub.b", "other.tag", "alt.sub.b"}
 var cfgStrVals = []string{"va", "vb", "vc"}
 var cfgSelVals = []string{"a", "b", "c"}
 
@@ -512,6 +512,11 @@ func genConfig(r rng, seed uint64, id string, merge bool) *sdl.Program {
 			d := &sdl.Conf{Field: fmt.Sprintf("C%d", nf), Menu: "valueDef", Keys: []string{"gone.a"}, Default: fmt.Sprint(r.n(1, 9)), GoType: "int", Optional: r.p(0.5)}
 			u := &sdl.Conf{Field: fmt.Sprintf("C%d", nf+1), Menu: pick(r, []string{"value", "prop"}), Keys: []string{"gone.b"}, GoType: pick(r, []string{"int", "int", "ints", "dur"}), Optional: r.p(0.6)}
 			t.Config = append(t.Config, d, u)
+		}
+		if !merge && r.p(0.2) {
+			// a holder whose section is a matter of the instance (the application creates it):
+			// different components, one field type, different sections
+			t.Config = append(t.Config, &sdl.Conf{Field: "CD", Menu: "typePrefixDyn", Keys: []string{pick(r, []string{"sim.sub", "alt.sub"})}, GoType: "cfgpd"})
 		}
 		if !merge && r.p(0.15) {
 			// a configuration holder that names its own prefix (value-receiver method), declared
